@@ -5,6 +5,7 @@ import (
 	"errors"
 	"fmt"
 	"log/slog"
+	"math"
 )
 
 type ByteSize int64
@@ -37,37 +38,50 @@ func isDigit(r rune) bool {
 	return r >= '0' && r <= '9'
 }
 
+// Parse reads a size in the form <digits><unit>, e.g. "512K" or "10G"; it means digits times unit.
 func Parse(s string) (ByteSize, error) {
 	if s == "" {
 		return 0, ErrEmptyString
 	}
 
 	num := int64(0)
-	multiplier := int64(1)
-	foundUnit := false
+	multiplier := int64(0)
+	digits := 0
 
 	for _, r := range s {
-		if isDigit(r) {
-			if foundUnit {
+		if multiplier != 0 {
+			// Something follows the unit
+			if isDigit(r) {
 				return 0, fmt.Errorf("%w in: %s", ErrCharsAfterUnit, s)
 			}
-
-			digit := int64(r - '0')
-			num = num*10 + digit
-		} else {
-			if foundUnit {
-				return 0, fmt.Errorf("%w in: %s", ErrMultipleUnits, s)
-			}
-
-			unit, exists := unitRuneMap[r]
-			if !exists {
-				return 0, fmt.Errorf("%w: %c in: %s", ErrUnknownUnit, r, s)
-			}
-
-			multiplier = unit
-			foundUnit = true
-			break
+			return 0, fmt.Errorf("%w in: %s", ErrMultipleUnits, s)
 		}
+
+		if isDigit(r) {
+			digit := int64(r - '0')
+			if num > (math.MaxInt64-digit)/10 {
+				return 0, fmt.Errorf("%w: number too large in: %s", ErrInvalidFormat, s)
+			}
+			num = num*10 + digit
+			digits++
+			continue
+		}
+
+		unit, exists := unitRuneMap[r]
+		if !exists {
+			return 0, fmt.Errorf("%w: %c in: %s", ErrUnknownUnit, r, s)
+		}
+		multiplier = unit
+	}
+
+	if digits == 0 {
+		return 0, fmt.Errorf("%w: no number in: %s", ErrInvalidFormat, s)
+	}
+	if multiplier == 0 {
+		return 0, fmt.Errorf("%w: no unit in: %s", ErrInvalidFormat, s)
+	}
+	if num > math.MaxInt64/multiplier {
+		return 0, fmt.Errorf("%w: size too large in: %s", ErrInvalidFormat, s)
 	}
 
 	return ByteSize(num * multiplier), nil
@@ -115,12 +129,14 @@ func (b ByteSize) ToString(unitRune rune) (string, error) {
 	return fmt.Sprintf("%d%c", size, unitRune), nil
 }
 
+// FindLargestFittingUnit returns the largest unit that expresses the size exactly, so that the
+// written form reads back to the identical value.
 func (b ByteSize) FindLargestFittingUnit() rune {
 	largestUnitSize := int64(1)
 	largestUnitRune := 'B'
 
 	for unitRune, unitSize := range unitRuneMap {
-		if int64(b) < unitSize {
+		if int64(b) < unitSize || int64(b)%unitSize != 0 {
 			continue
 		}
 
